@@ -248,12 +248,12 @@ def Bot.ctlIn (b : Bot) (isFirst : Bool) : CtlIn :=
   { isFirst, justRounds := b.row == b.rounds, stopAtRounds := b.stopAtRounds,
     startHand := b.gen.startHand, fits := b.checkNumberOfBells b.gen }
 
-/-- Start of `start_next_row`: `self._place = 0`, and the early calls for the coming row when the
-countdown is running. -/
+/-- Start of `start_next_row`: `self._place = 0`; the calls of the row just rung are forgotten
+(`self._calls = []`), and the early calls for the coming row are set when the countdown is running. -/
 def Bot.snrPrep (b0 : Bot) : Bot :=
   match b0.roundsLeft with
   | some k => { b0 with place := 0, calls := earlyAt b0.gen k }
-  | none => { b0 with place := 0 }
+  | none => { b0 with place := 0, calls := [] }
 
 def Bot.resetGen (b : Bot) : Bot := { b with gen := b.gen.reset }
 
